@@ -237,24 +237,28 @@ def nonfinite_values(dt):
 
 # ---------------------------------------------------------------- layouts
 
-def make_layout(np, layout, dt, raws):
-    """returns (array to pass, base array to watch, sentinel mask description)"""
+def make_layout(np, layout, dt, raws, shape=None):
+    """returns (array to pass, base array whose bytes are watched)"""
     n = len(raws)
-    assert n % 4 == 0
-    shape = (n // 4, 4)
+    if shape is None:
+        assert n % 4 == 0
+        shape = (n // 4, 4)
     a = to_array(np, dt, raws, shape)
     if layout == "contig":
         arr = a.copy()
         return arr, arr
     if layout == "strided":
-        base = np.zeros((shape[0], 9), dtype=a.dtype)
-        base[...] = to_array(np, dt, [raws[0]] * (shape[0] * 9), (shape[0], 9)) if n else 0
-        view = base[:, 1::2]
+        bshape = tuple(shape[:-1]) + (2 * shape[-1] + 1,)
+        base = np.zeros(bshape, dtype=a.dtype)
+        if n:
+            base[...] = a.reshape(-1)[0]
+        view = base[..., 1::2]
         view[...] = a
         return view, base
     if layout == "negstride":
-        base = a[::-1, ::-1].copy()
-        return base[::-1, ::-1], base
+        rev = tuple(slice(None, None, -1) for _ in shape)
+        base = a[rev].copy()
+        return base[rev], base
     if layout == "fortran":
         arr = np.asfortranarray(a)
         return arr, arr
@@ -289,7 +293,7 @@ def finding_region(i, o, q):
     return None
 
 
-def check_case(R, np, tf_cache, i, o, preserve, layout, raws, mrep, classes=None, record=True):
+def check_case(R, np, tf_cache, i, o, preserve, layout, raws, mrep, classes=None, record=True, shape=None):
     """One transformer call on one array.  mrep = model reply for
     (i, o, preserve, writeable, native, raws).  Returns number of problems."""
     from harness.common import outcome_of
@@ -299,7 +303,7 @@ def check_case(R, np, tf_cache, i, o, preserve, layout, raws, mrep, classes=None
     if key not in tf_cache:
         tf_cache[key] = get_chunk_dtype_transformer(i, o, warn=False)
     tf = tf_cache[key]
-    arr, base = make_layout(np, layout, i, raws)
+    arr, base = make_layout(np, layout, i, raws, shape)
     before = from_array(np, arr)
     base_before = base.tobytes()
 
@@ -310,6 +314,8 @@ def check_case(R, np, tf_cache, i, o, preserve, layout, raws, mrep, classes=None
     impl = outcome_of(call)
     after = from_array(np, arr)
     case = {"in": i, "out": o, "preserve": preserve, "layout": layout, "values": raws}
+    if shape is not None:
+        case["shape"] = list(shape)
     m_res, m_after, m_alias = mrep[0], mrep[1], str(mrep[2]) == "true"
     m_res = [canon(o, b) for b in m_res]
     m_after = [canon(i, b) for b in m_after]
@@ -340,8 +346,8 @@ def check_case(R, np, tf_cache, i, o, preserve, layout, raws, mrep, classes=None
         # cells of the base array outside the view must never change
         b2 = np.frombuffer(base.tobytes(), dtype=base.dtype).reshape(base.shape).copy()
         b1 = np.frombuffer(base_before, dtype=base.dtype).reshape(base.shape).copy()
-        b1[:, 1::2] = 0
-        b2[:, 1::2] = 0
+        b1[..., 1::2] = 0
+        b2[..., 1::2] = 0
         if b1.tobytes() != b2.tobytes():
             R.violation("memory outside the passed view was modified", case, {})
             problems += 1
@@ -515,6 +521,36 @@ def run(R):
                         R.violation("result depends on preserve_input",
                                     {"in": i, "out": o, "values": [raws[k]], "layout": "contig"},
                                     {"preserve": got[k], "inplace": got2[k]})
+    # ------------------------------------------------------------ shapes
+    # small arrays of 1 to 4 dimensions, sizes 1..9 (and one long axis), every layout
+    shp_cases = []
+    for i in INS:
+        pool = [b for b, _ in values[i]]
+        for o in OUTS:
+            for _ in range(10 if quick else 120):
+                nd = rng.randrange(1, 5)
+                shape = tuple(rng.randrange(1, 10) for _ in range(nd))
+                if rng.random() < 0.15:
+                    shape = shape[:-1] + (rng.randrange(10, 40),)
+                n = 1
+                for d_ in shape:
+                    n *= d_
+                raws = [rng.choice(pool) for _ in range(n)]
+                layout = rng.choice(LAYOUTS)
+                preserve = rng.random() < 0.5
+                shp_cases.append((i, o, shape, raws, layout, preserve))
+    reqs = []
+    for (i, o, shape, raws, layout, preserve) in shp_cases:
+        wr, nat = layout_flags(layout, i)
+        reqs.append(("convert", [Atom(i), Atom(o), preserve, wr, nat, raws]))
+    reps = R.model.batch(reqs)
+    for (i, o, shape, raws, layout, preserve), mrep in zip(shp_cases, reps):
+        check_case(R, np, tf_cache, i, o, preserve, layout, raws, mrep, shape=shape)
+        R.case({"in": i, "out": o, "preserve": preserve, "layout": layout, "shape": list(shape)},
+               nontrivial=(i != o))
+        R.count(f"shape-ndim:{len(shape)}")
+        R.traces += len(raws)
+
     # ------------------------------------------------------------ dtype assertion
     from harness.common import outcome_of, model_outcome
     from neuroglancer_scripts.data_types import get_chunk_dtype_transformer
@@ -564,16 +600,17 @@ def replay(R, payload):
     if "in" not in case:
         return True
     i, o = case["in"], case["out"]
-    raws = pad4(case["values"])
+    shape = tuple(case["shape"]) if "shape" in case and "index" not in case else None
+    raws = list(case["values"]) if shape else pad4(case["values"])
     layout = case.get("layout", "contig")
     preserve = case.get("preserve", True)
     wr, nat = layout_flags(layout, i)
     mrep = R.model.call("convert", [Atom(i), Atom(o), preserve, wr, nat, raws])
     spec = R.model.call("nearest_sat_of", [Atom(i), Atom(o), raws])
     guards = R.model.call("guards", [Atom(i), Atom(o), raws])
-    n = check_case(R, np, {}, i, o, preserve, layout, raws, mrep, record=False)
+    n = check_case(R, np, {}, i, o, preserve, layout, raws, mrep, record=False, shape=shape)
     from neuroglancer_scripts.data_types import get_chunk_dtype_transformer
-    arr = to_array(np, i, raws, (len(raws) // 4, 4))
+    arr = to_array(np, i, raws, shape or (len(raws) // 4, 4))
     with np.errstate(all="ignore"):
         got = from_array(np, get_chunk_dtype_transformer(i, o, warn=False)(arr))
     n += oracle_values(R, np, i, o, raws, got, spec, guards)
